@@ -26,15 +26,16 @@ Ltac break_if :=
 
 Ltac finish_simpl Sl Sr Fl Fr :=
   eexists; split; [reflexivity|]; split; [|split];
-  [ simpl in *; repeat (apply andb_true_iff; split); auto; lia
-  | intros rho sg; specialize (Sl rho sg); specialize (Sr rho sg); simpl in *;
-    try rewrite <- Sl; try rewrite <- Sr; simpl;
+  [ cbn [wf_cir] in *; repeat (apply andb_true_iff; split); auto; lia
+  | intros rho sg; specialize (Sl rho sg); specialize (Sr rho sg); cbn [ceval cop_den] in *;
+    try rewrite <- Sl; try rewrite <- Sr;
     try rewrite Z.div_1_r; try (rewrite Z.div_0_l by lia); lia
-  | intros rho sg HF; simpl in HF; destruct HF as (HF1 & HF2 & HFn);
+  | intros rho sg HF; cbn [flags_sound] in HF; destruct HF as (HF1 & HF2 & HFn);
     specialize (Fl rho sg HF1); specialize (Fr rho sg HF2);
-    specialize (Sl rho sg); specialize (Sr rho sg); simpl in *;
+    specialize (Sl rho sg); specialize (Sr rho sg); cbn [flags_sound ceval cop_den] in *;
     repeat split; auto; try tauto;
-    try (let Hn := fresh "Hn" in intro Hn; specialize (HFn Hn); rewrite ?Sl, ?Sr; exact HFn) ].
+    try (let Hn := fresh "Hn" in intro Hn; specialize (HFn Hn);
+         first [ rewrite ?Sl, ?Sr; exact HFn | lia | congruence ]) ].
 
 Lemma simplify_cir_spec : forall e, wf_cir e = true ->
   exists e', simplify_cir e = Some e' /\ wf_cir e' = true /\
@@ -51,11 +52,11 @@ Proof.
     cbn [simplify_cir]. rewrite El, Er. clear IHe1 IHe2.
     destruct op.
     + cbn [cop_eqb orb andb]; repeat (break_if; cbn -[Z.mul Z.add Z.sub Z.div Z.modulo]);
-        try discriminate; finish_simpl Sl Sr Fl Fr.
+        try discriminate; try (finish_simpl Sl Sr Fl Fr).
     + cbn [cop_eqb orb andb]; repeat (break_if; cbn -[Z.mul Z.add Z.sub Z.div Z.modulo]);
-        try discriminate; finish_simpl Sl Sr Fl Fr.
+        try discriminate; try (finish_simpl Sl Sr Fl Fr).
     + cbn [cop_eqb orb andb]; repeat (break_if; cbn -[Z.mul Z.add Z.sub Z.div Z.modulo]);
-        try discriminate; finish_simpl Sl Sr Fl Fr.
+        try discriminate; try (finish_simpl Sl Sr Fl Fr).
     + (* / : the divisor is a positive literal *)
       destruct e2; try discriminate. simpl in Er. inversion Er; subst r. clear Er.
       assert (Hv : 0 < v) by lia. assert (Hv0 : (v =? 0) = false) by lia.
@@ -63,13 +64,13 @@ Proof.
         repeat (break_if; cbn -[Z.mul Z.add Z.sub Z.div Z.modulo]); unfold pydiv; rewrite ?Hv0;
         try discriminate;
         repeat match goal with H : (?c =? 1) = true |- _ => assert (c = 1) by lia; clear H; subst c end;
-        finish_simpl Sl Sr Fl Fr.
+        try (finish_simpl Sl Sr Fl Fr).
     + destruct e2; try discriminate. simpl in Er. inversion Er; subst r. clear Er.
       assert (Hv : 0 < v) by lia. assert (Hv0 : (v =? 0) = false) by lia.
       cbn [cop_eqb orb andb is_const const_is]; rewrite ?andb_true_r, ?andb_false_r, ?Hv0;
         repeat (break_if; cbn -[Z.mul Z.add Z.sub Z.div Z.modulo]); unfold pymod; rewrite ?Hv0;
         try discriminate;
-        finish_simpl Sl Sr Fl Fr.
+        try (finish_simpl Sl Sr Fl Fr).
   - simpl in Hwf. destruct (IHe Hwf) as (a & Ea & Wa & Sa & Fa).
     cbn [simplify_cir]. rewrite Ea.
     destruct a; cbn -[Z.opp]; eexists; (split; [reflexivity|]); (split; [auto|]); (split;
